@@ -473,9 +473,13 @@ impl<const N: usize> SlotManager<N> {
             used.set(i, buf[0] != 0xFF);
         }
 
-        let l = if used.any() { n - done.count_ones() } else { 0 };
-
         let complete = done.count_ones() == n;
+        if complete {
+            // Every data segment is stored, no reconstruction is pending any more.
+            used = BitArray::ZERO;
+        }
+
+        let l = if used.any() { n - done.count_ones() } else { 0 };
 
         Ok(Some(Updater {
             firmware_slot,
